@@ -46,6 +46,23 @@ class Boom(Exception):
     pass
 
 
+class BoomBase(BaseException):
+    """A user-defined abort signal that is not an Exception subclass."""
+
+
+def injected(state):
+    """The exception instance to raise for this scenario."""
+    kind = state.get("exc") or "Exception"
+    if kind == "KeyboardInterrupt":
+        return KeyboardInterrupt("injected")
+    if kind == "BaseException":
+        return BoomBase("injected")
+    return Boom("injected")
+
+
+INJECTED = (Boom, BoomBase, KeyboardInterrupt)
+
+
 TIMERS = []          # every timer the library created (registry = observer)
 
 
@@ -104,7 +121,7 @@ def failing(fn, state):
         state["n"] += 1
         if state["fail_at"] is not None and state["n"] == state["fail_at"]:
             state["raised"] = True
-            raise Boom("injected")
+            raise injected(state)
         return fn(*a)
     return w
 
@@ -133,6 +150,7 @@ def build_call(sc):
     # constructors' own probing calls of the callables are not counted)
     state["arm"] = fault["at"] if fault and kind in (
         "H", "gamma", "A", "eom", "target", "corr", "j") else None
+    state["exc"] = (fault or {}).get("exc")
 
     def hfun(t):
         return 0.5 * sz + 0.3 * np.cos(2 * t) * sx
@@ -208,7 +226,7 @@ def build_call(sc):
             def tfun(rho):
                 state["n"] += 1
                 state["raised"] = True
-                raise Boom("injected")
+                raise injected(state)
             target = tfun
         else:
             target = tgt
@@ -267,7 +285,7 @@ def run_fault_scenario(sc, out, before):
     res = {"id": sc["id"]}
     try:
         call = build_call(sc)
-    except Boom:
+    except INJECTED:
         res["status"] = "fault-in-constructor"
         return res
     st = sc["_state"]
@@ -276,8 +294,9 @@ def run_fault_scenario(sc, out, before):
     try:
         call()
         res["outcome"] = "returned"
-    except Boom:
+    except INJECTED as exc:
         res["outcome"] = "raised-injected"
+        res["exc_class"] = type(exc).__name__
     except Exception as exc:   # the library's own error for a broken input
         res["outcome"] = "raised:" + type(exc).__name__
     res["fault_fired"] = bool(sc["_state"]["raised"]) or \
